@@ -38,7 +38,7 @@ def gen_template(rng, e):
     g = catalog.Choices(rng=rng, seed_value=0, callback=(lambda *a, **k: None) if e["cb"] else None)
     e["build"](g)
     return {"entry": e["name"], "choices": list(g.rec), "tenalg": "einsum" if rng.random() < 0.3 else "core",
-            "dtype": "float32" if rng.random() < 0.15 else "float64"}
+            "dtype": rng.choice(["float64"] * 16 + ["float32"] * 2 + ["int64", "complex128"])}
 
 
 def gen_record(rng, r):
@@ -101,6 +101,8 @@ def fp_tags(kwargs, notes):
     for k in ("svd", "method"):
         if kwargs.get(k) == "randomized_svd":
             tags.append("svd=randomized_svd")
+        elif callable(kwargs.get(k)):
+            tags.append("svd=callable:" + str(notes.get("svd_callable")))
     return tags
 
 
